@@ -434,7 +434,6 @@ func EstimateUnits(r Rules, actions []Action, authFactory AuthFactory) (fees.Dim
 	bandwidth += consts.Uint8Len
 	for i, action := range actions {
 		actionBytes := action.Bytes()
-		actionSize := len(actionBytes)
 
 		actor := authFactory.Address()
 		stateKeys := action.StateKeys(actor, CreateActionID(ids.Empty, uint8(i)))
@@ -442,12 +441,14 @@ func EstimateUnits(r Rules, actions []Action, authFactory AuthFactory) (fees.Dim
 		if !ok {
 			return fees.Dimensions{}, ErrInvalidKeyValue
 		}
-		bandwidth += uint64(actionSize)
+		// each action is a length-prefixed element of the repeated actions field
+		bandwidth += uint64(len(canoto__SerializeTx__Actions__tag)) + canoto.SizeBytes(actionBytes)
 		stateKeysMaxChunks = append(stateKeysMaxChunks, actionStateKeysMaxChunks...)
 		computeOp.Add(action.ComputeUnits(r))
 	}
 	authBandwidth, authCompute := authFactory.MaxUnits()
-	bandwidth += authBandwidth
+	// the auth is a length-prefixed field
+	bandwidth += uint64(len(canoto__SerializeTx__Auth__tag)) + canoto.SizeUint(authBandwidth) + authBandwidth
 	sponsorStateKeyMaxChunks := r.GetSponsorStateKeysMaxChunks()
 	stateKeysMaxChunks = append(stateKeysMaxChunks, sponsorStateKeyMaxChunks...)
 	computeOp.Add(authCompute)
